@@ -9,7 +9,7 @@ PYTHONPATH=/repo timeout 300 /venv/bin/python $DEMO > $O/demo_without.log 2>&1; 
 echo "$ID demo: with-change rc=$with, without rc=$without"
 git -C $W diff > $O/patch.check.diff
 if [ "$2" = "full" ]; then
-  (cd $W && PYTHONPATH=$W timeout 3000 /venv/bin/python -m pytest -ra -q -p no:cacheprovider --timeout=900 --continue-on-collection-errors --junitxml=$O/junit.xml > $O/suite.log 2>&1)
+  (cd $W && PYTHONPATH=$W timeout 6000 /venv/bin/python -m pytest -ra -q -p no:cacheprovider --timeout=900 --continue-on-collection-errors --junitxml=$O/junit.xml > $O/suite.log 2>&1)
   python3 /verif/tools/cmp_baseline.py $O/junit.xml > $O/suite_cmp.txt 2>&1
   echo "$ID suite: $(head -1 $O/suite_cmp.txt)"
 fi
